@@ -218,8 +218,10 @@ def run(ctx_):
         cl = classes.get(b)
         if cl is None or len(cl) != len(methods):
             return b, None
-        r1 = scrape.idlc_run(ctx_["idlc"], os.path.join(root, "l2.idl"), os.path.join(root, "l2.h"), "c", False)
-        r2 = scrape.idlc_run(ctx_["idlc"], os.path.join(root, "l2.idl"), os.path.join(root, "l2_invoke.h"), "c", True)
+        # every other batch with --no-typed-objects: the flag changes type names only
+        fx = ["--no-typed-objects"] if b % 2 == 1 else []
+        r1 = scrape.idlc_run(ctx_["idlc"], os.path.join(root, "l2.idl"), os.path.join(root, "l2.h"), "c", False, extra=fx)
+        r2 = scrape.idlc_run(ctx_["idlc"], os.path.join(root, "l2.idl"), os.path.join(root, "l2_invoke.h"), "c", True, extra=fx)
         if r1[0] != 0 or r2[0] != 0:
             return b, {"emit_failed": (r1[0], r2[0], r1[2][-200:])}
         clean = [m[0] for m, k in zip(methods, cl) if k == 0]
